@@ -30,6 +30,13 @@ KERNELS = {
     "apply_spans_index_of_min": {"owner": "C08"},
     "apply_spans_index_of_max": {"owner": "C08"},
     "_get_spans_for_2_fields_by_spans": {"owner": "C08"},
+    "apply_spans_index_of_first_filter": {"owner": "C08"},       # (dest_array, filter_array) are returned by name
+    "apply_spans_index_of_last_filter": {"owner": "C08"},
+    "apply_spans_index_of_min_filter": {"owner": "C08"},
+    "apply_spans_index_of_max_filter": {"owner": "C08"},
+    "_get_spans_for_2_fields_njit": {"owner": "C08", "mutated": [2]},        # returns a slice of the `spans` buffer it wrote
+    "_get_spans_for_multi_fields_njit": {"owner": "C08", "mutated": [1]},
+    "_get_spans_for_index_string_field": {"owner": "C08"},
     "apply_filter_to_index_values": {"owner": "C09"},
     "apply_indices_to_index_values": {"owner": "C09"},
     "map_valid": {"owner": "C04"},
@@ -40,8 +47,22 @@ KERNELS = {
     "generate_ordered_map_to_left_remaining": {"owner": "C03", "mutated": [1, 2]},
     "generate_ordered_map_to_left_right_unique_remaining": {"owner": "C03", "mutated": [1]},
     "generate_ordered_map_to_left_partial": {"owner": "C03", "mutated": [4, 5]},
+    "generate_ordered_map_to_left_left_unique_partial": {"owner": "C03", "mutated": [3, 4]},
+    "generate_ordered_map_to_left_right_unique_partial": {"owner": "C03", "mutated": [3]},
+    "generate_ordered_map_to_inner_partial": {"owner": "C03", "mutated": [4, 5]},
+    "generate_ordered_map_to_inner_left_unique_partial": {"owner": "C03", "mutated": [4, 5]},
+    "generate_ordered_map_to_inner_right_unique_partial": {"owner": "C03", "mutated": [4, 5]},
+    "generate_ordered_map_to_inner_both_unique_partial": {"owner": "C03", "mutated": [4, 5]},
+    "compare_rows_for_journalling": {"owner": "C17", "mutated": [4]},          # returns None: the result is `to_keep`
+    "generate_ordered_map_to_left_both_unique": {"owner": "C19", "mutated": [2]},
+    "generate_ordered_map_to_left_right_unique": {"owner": "C19", "mutated": [2]},
+    "ordered_inner_map_both_unique": {"owner": "C19", "mutated": [2, 3]},      # returns None
 }
 C08_NOSRC = ("apply_spans_count", "apply_spans_index_of_first", "apply_spans_index_of_last")
+C08_REDUCE = ("apply_spans_count", "apply_spans_first", "apply_spans_last", "apply_spans_max", "apply_spans_min",
+              "apply_spans_index_of_first", "apply_spans_index_of_last", "apply_spans_index_of_min", "apply_spans_index_of_max")
+C08_FILTER = {"index_of_first": "apply_spans_index_of_first_filter", "index_of_last": "apply_spans_index_of_last_filter",
+              "index_of_min": "apply_spans_index_of_min_filter", "index_of_max": "apply_spans_index_of_max_filter"}
 
 QUICK_DERIVED = 270
 QUICK_RANDOM = 270
@@ -49,6 +70,10 @@ QUICK_RANDOM = 270
 
 def arr(xs):
     return {"arr": [int(x) for x in xs]}
+
+
+def arr2(rows):
+    return {"arr2": [[int(x) for x in r] for r in rows]}
 
 
 def barr(xs):
@@ -59,7 +84,7 @@ NONE = {"none": True}
 
 
 def gcase(kernel, args, unsafe=False, fuel=None, **ann):
-    n = sum(len(a.get("arr", a.get("barr", []))) for a in args)
+    n = sum(len(a.get("arr", a.get("barr", []))) + sum(len(r) for r in a.get("arr2", [])) for a in args)
     c = {"op": "gen_kernel", "kernel": kernel, "args": args, "fuel": fuel if fuel is not None else 4 * n + 64,
          "_unsafe": bool(unsafe),
          # the cross-cutting harnesses (C10/C11/C12, checks/harness/meta.py) re-run the owners' own well-formed cases and
@@ -90,7 +115,31 @@ def merge_safe(s0, s1):
     return not s1 or not s0 or (max(s1) >= max(s0) and all(a <= b for a, b in zip(s1, s1[1:])))
 
 
+def _int_col(col):
+    return col is not None and col.get("kind") == "numeric" and col.get("dtype", "int64") in ("int64", "int32") and \
+        ints_only(col["data"])
+
+
+def filter_case(k, sp, src, dest, filt, **ann):
+    """a `*_filter` kernel call; it may subscript out of range exactly when a buffer has fewer entries than there are spans"""
+    args = [arr(sp)] + ([arr(src)] if k.endswith(("min_filter", "max_filter")) else []) + [arr(dest), barr(filt)]
+    return gcase(k, args, unsafe=min(len(dest), len(filt)) < len(sp) - 1, **ann)
+
+
 def derive_c08(case):
+    op = case.get("op")
+    if op == "apply_filter" and _int_col(case.get("col")):
+        return filter_case(C08_FILTER[case["fn"]], case["spans"], case["col"]["data"], case["dest"], case["filt"], _from="C08")
+    if op == "spans_2arrays" and all(_int_col(c) for c in case["cols"]) and len(case["cols"]) == 2:
+        a, b = (c["data"] for c in case["cols"])
+        return gcase("_get_spans_for_2_fields_njit", [arr(a), arr(b), arr([0] * (len(a) + 1))], unsafe=len(b) < len(a),
+                     _from="C08")
+    if op == "spans_multi" and case["cols"] and all(_int_col(c) for c in case["cols"]) and \
+            len({len(c["data"]) for c in case["cols"]}) == 1:
+        rows = [c["data"] for c in case["cols"]]
+        return gcase("_get_spans_for_multi_fields_njit", [arr2(rows), arr([0] * (len(rows[0]) + 1))], _from="C08")
+    if op == "spans_indexed_raw":
+        return gcase("_get_spans_for_index_string_field", [arr(case["indices"]), arr(case["values"])], _from="C08")
     if case.get("op") == "spans_by_spans":
         s0, s1 = case["span0"], case["span1"]
         return gcase("_get_spans_for_2_fields_by_spans", [arr(s0), arr(s1)], unsafe=not merge_safe(s0, s1),
@@ -114,6 +163,52 @@ def random_c08(rng, n_cases):
     names = [k for k, v in KERNELS.items() if v["owner"] == "C08"]
     for t in range(n_cases):
         k = names[t % len(names)]
+        if k in C08_FILTER.values():
+            n = rng.choice([0, 1, 2, 3, rng.randrange(1, 12), rng.randrange(1, 40)])
+            src = [rng.choice([0, 1, -1, 5, -7, 2 ** 40, rng.randrange(-9, 10)]) for _ in range(n)]
+            what = rng.randrange(10)
+            if what < 7:                                   # non-decreasing, empty spans included
+                sp = sorted(rng.randrange(0, n + 1) for _ in range(rng.randrange(0, 7)))
+            else:                                          # anything: decreasing, beyond the column, negative
+                sp = [rng.randrange(-2, n + 3) for _ in range(rng.randrange(0, 5))]
+            m = max(len(sp) - 1, 0)
+            dl, fl = (m, m) if rng.random() < 0.8 else (rng.randrange(0, m + 2), rng.randrange(0, m + 2))
+            out.append(filter_case(k, sp, src, [7] * dl, [rng.random() < 0.5 for _ in range(fl)], _from="random"))
+            continue
+        if k == "_get_spans_for_2_fields_njit":
+            n = rng.choice([0, 1, 2, 3, rng.randrange(1, 30)])
+            a = sorted(rng.randrange(0, 4) for _ in range(n))
+            b = [rng.randrange(0, 3) for _ in range(n if rng.random() < 0.85 else rng.randrange(0, n + 2))]
+            cap = n + 1 if rng.random() < 0.8 else rng.randrange(0, n + 3)
+            runs = 1 + sum(1 for i in range(1, n) if a[i] != a[i - 1] or (i < len(b) and b[i] != b[i - 1]))
+            out.append(gcase(k, [arr(a), arr(b), arr([9] * cap)], unsafe=len(b) < n or cap < (runs + 1 if n else 1),
+                             _from="random"))
+            continue
+        if k == "_get_spans_for_multi_fields_njit":
+            n = rng.choice([0, 1, 2, 3, rng.randrange(1, 20)])
+            rows = [[rng.randrange(0, 2 + c) for _ in range(n)] for c in range(rng.randrange(1, 5))]
+            rows[0].sort()
+            cap = n + 1 if rng.random() < 0.8 else rng.randrange(0, n + 3)
+            runs = 1 + sum(1 for i in range(1, n) if any(r[i] != r[i - 1] for r in rows))
+            out.append(gcase(k, [arr2(rows), arr([9] * cap)], unsafe=cap < (runs + 1 if n else 1), _from="random"))
+            continue
+        if k == "_get_spans_for_index_string_field":
+            n = rng.choice([0, 0, 1, 2, 3, rng.randrange(1, 15)])
+            strs = [[rng.choice([97, 98, 32])] * rng.choice([0, 1, 1, 2, 3]) for _ in range(n)]
+            strs = [strs[i - 1] if i and rng.random() < 0.5 else strs[i] for i in range(n)]
+            idx = [0]
+            for st in strs:
+                idx.append(idx[-1] + len(st))
+            vals = [c for st in strs for c in st]
+            what = rng.randrange(10)
+            if what == 0:
+                idx = []                                   # a field without any index entry
+            elif what == 1:
+                idx = [rng.randrange(0, len(vals) + 3) for _ in idx]       # offsets that are not an encoding
+            elif what == 2:
+                vals = vals[:rng.randrange(0, len(vals) + 1)]
+            out.append(gcase(k, [arr(idx), arr(vals)], _from="random"))
+            continue
         if k == "_get_spans_for_2_fields_by_spans":
             n = rng.randrange(0, 30)
             mk = lambda: sorted(set([0, n] + [rng.randrange(0, n + 1) for _ in range(rng.randrange(0, 8))]))  # noqa: E731
@@ -280,7 +375,7 @@ def random_c03(rng, n_cases):
         inv = rng.choice([-1, 2147483647, 4611686018427387904])
         nl, nr = rng.randrange(0, 12), rng.randrange(0, 12)
         cap = rng.choice([1, 2, 3, 5, 16])
-        what = t % 4
+        what = t % 10
         if what == 0:
             left, right = _sorted_keys(rng, nl, True), _sorted_keys(rng, nr, True)
             i, j = rng.randrange(0, nl + 1), rng.randrange(0, nr + 1)
@@ -298,7 +393,7 @@ def random_c03(rng, n_cases):
             out.append(gcase("generate_ordered_map_to_left_right_unique_remaining",
                              [I(i_max), arr([8] * cap), I(rng.randrange(0, i_max + 2)), I(rng.randrange(0, cap + 1)), I(inv)],
                              fuel=i_max + 1, _from="random"))
-        else:
+        elif what in (3, 4):
             left, right = _sorted_keys(rng, nl, False), _sorted_keys(rng, nr, False)
             cap = rng.choice([1, 2, 3, 5, 16, 64])
             i, j = (0, 0) if rng.random() < 0.6 else (rng.randrange(0, nl + 1), rng.randrange(0, nr + 1))
@@ -307,21 +402,133 @@ def random_c03(rng, n_cases):
                 i -= 1
             while 0 < j < nr and right[j - 1] == right[j]:
                 j -= 1
-            out.append(gcase("generate_ordered_map_to_left_partial",
-                             [arr(left), I(nl), arr(right), I(nr), arr([7] * cap), arr([8] * cap), I(inv), I(rng.randrange(0, 50)),
-                              I(rng.randrange(0, 50)), I(i), I(j), I(0), I(0), I(0), I(-1), I(-1), {"bool": False}],
-                             fuel=4 * (nl + nr + cap) + 16, _from="random"))
+            fsm = [I(i), I(j), I(0), I(0), I(0), I(-1), I(-1), {"bool": False}]
+            if what == 3:
+                out.append(gcase("generate_ordered_map_to_left_partial",
+                                 [arr(left), I(nl), arr(right), I(nr), arr([7] * cap), arr([8] * cap), I(inv),
+                                  I(rng.randrange(0, 50)), I(rng.randrange(0, 50))] + fsm,
+                                 fuel=4 * (nl + nr + cap) + 16, _from="random"))
+            else:
+                out.append(gcase("generate_ordered_map_to_inner_partial",
+                                 [arr(left), I(nl), arr(right), I(nr), arr([7] * cap), arr([8] * cap),
+                                  I(rng.randrange(0, 50)), I(rng.randrange(0, 50))] + fsm,
+                                 fuel=4 * (nl + nr + cap) + 16, _from="random"))
+        else:
+            # the uniqueness-specialised kernels, as the streamed drivers call them: i_max / j_max are the logical (trimmed)
+            # chunk lengths, at most the window lengths; one call in ten passes a bound beyond its window (`_unsafe`)
+            lu = what in (5, 7)                        # left keys unique
+            ru = what in (6, 8)                        # right keys unique
+            bu = what == 9
+            left = _sorted_keys(rng, nl, lu or bu)
+            right = _sorted_keys(rng, nr, ru or bu)
+            i_max = nl if rng.random() < 0.6 else rng.randrange(0, nl + 1)
+            j_max = nr if rng.random() < 0.6 else rng.randrange(0, nr + 1)
+            unsafe = False
+            if rng.random() < 0.1:
+                if rng.random() < 0.5:
+                    i_max = nl + 1
+                else:
+                    j_max = nr + 1
+                unsafe = True
+            i, j = rng.randrange(0, nl + 1), rng.randrange(0, nr + 1)
+            r = rng.randrange(0, cap + 1) if rng.random() < 0.3 else 0
+            i_off, j_off = rng.randrange(0, 100), rng.randrange(0, 100)
+            fuel = 2 * (2 * nl + 2 * nr + cap) + 8
+            if what == 5:
+                out.append(gcase("generate_ordered_map_to_left_left_unique_partial",
+                                 [arr(left), arr(right), I(j_max), arr([7] * cap), arr([8] * cap), I(inv), I(i_off), I(j_off),
+                                  I(i), I(j), I(r)], unsafe=unsafe and j_max > nr, fuel=fuel, _from="random"))
+            elif what == 6:
+                out.append(gcase("generate_ordered_map_to_left_right_unique_partial",
+                                 [arr(left), I(i_max), arr(right), arr([8] * cap), I(inv), I(j_off), I(i), I(j), I(r)],
+                                 unsafe=unsafe and i_max > nl, fuel=fuel, _from="random"))
+            else:
+                k = {7: "generate_ordered_map_to_inner_left_unique_partial",
+                     8: "generate_ordered_map_to_inner_right_unique_partial",
+                     9: "generate_ordered_map_to_inner_both_unique_partial"}[what]
+                out.append(gcase(k, [arr(left), I(i_max), arr(right), I(j_max), arr([7] * cap), arr([8] * cap), I(i_off),
+                                     I(j_off), I(i), I(j), I(r)], unsafe=unsafe, fuel=fuel, _from="random"))
+    return out
+
+
+# ----------------------------------------------------------------------------------------------------------------------
+# C17: compare_rows_for_journalling on journalling maps (-1 = no row); C19: the flat left-map kernels on whole arrays
+# ----------------------------------------------------------------------------------------------------------------------
+
+def compare_rows_safe(om, nm, oldf, newf, tk):
+    """every subscript the kernel makes is in range (a negative row number within -len..-1 wraps, still in range)"""
+    if len(tk) < len(om):
+        return False
+    for i, o in enumerate(om):
+        if tk[i]:
+            continue
+        if o == -1:
+            continue
+        if i >= len(nm):
+            return False
+        if nm[i] == -1:
+            continue
+        if not (-len(oldf) <= o < len(oldf)) or not (-len(newf) <= nm[i] < len(newf)):
+            return False
+    return True
+
+
+def random_c17(rng, n_cases):
+    out = []
+    for t in range(n_cases):
+        no, nn = rng.randrange(0, 8), rng.randrange(0, 8)
+        n = rng.randrange(0, 10)
+        oldf = [rng.randrange(0, 4) for _ in range(no)]
+        newf = [rng.randrange(0, 4) for _ in range(nn)]
+        bad = rng.random() < 0.15
+        om = [-1 if rng.random() < 0.3 or no == 0 else rng.randrange(-no if bad else 0, no + (2 if bad else 0)) for _ in range(n)]
+        nm = [-1 if rng.random() < 0.3 or nn == 0 else rng.randrange(-nn if bad else 0, nn + (2 if bad else 0)) for _ in range(n)]
+        if rng.random() < 0.1:
+            nm = nm[:rng.randrange(0, n + 1)]
+        tk = [rng.random() < 0.3 for _ in range(n if rng.random() < 0.9 else rng.randrange(0, n + 1))]
+        out.append(gcase("compare_rows_for_journalling", [arr(om), arr(nm), arr(oldf), arr(newf), barr(tk)],
+                         unsafe=not compare_rows_safe(om, nm, oldf, newf, tk), _from="random"))
+    return out
+
+
+def random_c19(rng, n_cases):
+    out = []
+    for t in range(n_cases):
+        nl, nr = rng.randrange(0, 12), rng.randrange(0, 12)
+        if t % 3 == 2:
+            left, right = _sorted_keys(rng, nl, True), _sorted_keys(rng, nr, True)
+            if rng.random() < 0.1:
+                right = [rng.randrange(0, 6) for _ in range(nr)]
+            matches = len(set(left) & set(right)) if len(set(right)) == len(right) else min(nl, nr)
+            cl, cr = (matches + rng.randrange(0, 3) for _ in range(2))
+            short = rng.random() < 0.1 and matches > 0
+            if short:
+                cl = rng.randrange(0, matches)
+            out.append(gcase("ordered_inner_map_both_unique", [arr(left), arr(right), arr([7] * cl), arr([8] * cr)],
+                             unsafe=short or len(set(right)) != len(right), fuel=nl + nr + 1, _from="random"))
+            continue
+        bu = t % 3 == 0
+        first = _sorted_keys(rng, nl, bu)
+        second = _sorted_keys(rng, nr, True)
+        if rng.random() < 0.1:                       # keys that are not sorted / not unique: every subscript is still guarded
+            second = [rng.randrange(0, 6) for _ in range(nr)]
+        res = [7] * (nl if rng.random() < 0.9 else rng.randrange(0, nl + 3))      # a wrong length is an explicit ValueError
+        inv = rng.choice([-1, 2147483647, 4611686018427387904])
+        k = "generate_ordered_map_to_left_both_unique" if bu else "generate_ordered_map_to_left_right_unique"
+        out.append(gcase(k, [arr(first), arr(second), arr(res), {"int": inv}], fuel=nl + nr + 1, _from="random"))
     return out
 
 
 DERIVE = {"C08": derive_c08, "C09": derive_c09, "C04": derive_c04}
-RANDOM = {"C08": random_c08, "C09": random_c09, "C04": random_c04, "C03": random_c03}
+RANDOM = {"C08": random_c08, "C09": random_c09, "C04": random_c04, "C03": random_c03, "C17": random_c17, "C19": random_c19}
 
 
 def extra_cases(owner, cases, tier, rng):
     owner = owner.upper()
     nd = QUICK_DERIVED if tier == "quick" else 20 * QUICK_DERIVED
-    nr = QUICK_RANDOM if tier == "quick" else 40 * QUICK_RANDOM
+    nk = sum(1 for v in KERNELS.values() if v["owner"] == owner)
+    nr = max(QUICK_RANDOM, 54 * nk)                 # at least 54 seeded direct calls per translated kernel of the owner
+    nr = nr if tier == "quick" else 40 * nr
     derived = []
     seen = set()
     for c in cases:
@@ -364,6 +571,9 @@ def _decode(np, a):
         return np.array(a["arr"], dtype=np.int64)
     if "barr" in a:
         return np.array(a["barr"], dtype=bool)
+    if "arr2" in a:
+        rows = a["arr2"]
+        return np.array(rows, dtype=np.int64).reshape(len(rows), len(rows[0]) if rows else 0)
     if "int" in a:
         return np.int64(a["int"])
     if "bool" in a:
@@ -395,13 +605,12 @@ def impl(case):
     fn = getattr(ops, case["kernel"])
     args = [_decode(np, a) for a in case["args"]]
     ret = fn(*args)
-    parts = [_canon(np, x) for x in ret] if isinstance(ret, tuple) else [_canon(np, ret)]
-    mutated = KERNELS.get(case["kernel"], {}).get("mutated")
-    if mutated:                  # arrays the kernel writes in place are part of its result (translator: `mutated`)
-        val = parts + [_canon(np, args[i]) for i in mutated]
-    else:
-        val = parts if isinstance(ret, tuple) else parts[0]
-    return {"val": val}
+    # a kernel without `return` yields None: its result is what it stored into its array parameters
+    parts = [] if ret is None else [_canon(np, x) for x in ret] if isinstance(ret, tuple) else [_canon(np, ret)]
+    mutated = KERNELS.get(case["kernel"], {}).get("mutated") or []
+    # arrays the kernel writes in place are part of its result (translator: `mutated`)
+    vals = parts + [_canon(np, args[i]) for i in mutated]
+    return {"val": vals[0] if len(vals) == 1 and not isinstance(ret, tuple) else vals}
 
 
 def to_model(case):
